@@ -21,12 +21,17 @@ SHARDS = {'quick': 4, 'thorough': 16}
 
 
 def strata(tier):
-    return G.strata_grid(
+    # RR with a warm start (bulk load() of an archive holding more than maxsize entries): only the 'exactly one leaves' clause applies
+    warm = G.strata_grid(algos=('rr',), maxsizes=(2, 3, 4), purges=(False,), families=('memarch', 'persist'),
+                         backends=('cache_dict', 'cache_dir_dill', 'cache_file_pkl', 'cache_sql_mem'),
+                         weights={'call': 12, 'load': 3, 'awrite': 3, 'sweep': 2, 'clear': 1, 'dump': 1},
+                         max_ops=30, pool=(5, 10), prefill_pct=60)
+    return [('warm/' + n, s) for n, s in warm] + G.strata_grid(
         algos=('lru', 'mru', 'lfu', 'rr'), maxsizes=(2, 1, 3, 4, 12), purges=(False,), families=('noarch', 'memarch', 'persist', 'direct'),
         backends=('none', 'plain', 'cache_dict', 'cache_null', 'direct_dict', 'cache_dir_dill', 'cache_file_pkl', 'cache_sql_mem', 'direct_file_pkl'),
         weights={'call': 14, 'burst': 3, 'clear': 1, 'dump': 0, 'load': 0, 'dumpk': 0, 'loadk': 0, 'clearkeep': 0,
                  'arch_off': 0, 'arch_on': 0},
-        max_ops=40 if tier == 'quick' else 80, pool=(3, 8))
+        max_ops=40 if tier == 'quick' else 80, pool=(3, 8), raising_pct=15)
 
 
 def check_trace(case, tr):
@@ -49,6 +54,15 @@ def check_trace(case, tr):
             events.append('clear')
             continue
         if s.kind != 'call':
+            continue
+        if s.expected_exc is not None and s.exc is s.expected_exc:
+            # the function itself raised: the call stores nothing and must not disturb residents or the usage record
+            flags['raising_call'] = flags.get('raising_call', 0) + 1
+            gone = [k for k in s.pre_mem if not has(s.post_mem, k)]
+            if gone or len(s.post_mem) != len(s.pre_mem):
+                out.append(Discrepancy('C06/%s/raising-call-changed-residents' % algo, 'step %d: %r -> %r' % (i, list(s.pre_mem), list(s.post_mem))))
+                return out, events, flags
+            events.append('x')
             continue
         if s.exc is not None:
             out.append(Discrepancy('C06/call/raised/%s' % H.exc_sig(s.exc), 'step %d: %r' % (i, s.exc)))
@@ -78,6 +92,16 @@ def check_trace(case, tr):
                     return out, events, flags
                 run_no_evict += 1
                 events.append('m')
+            elif algo == 'rr':
+                # RR needs no usage record: exactly one resident entry (or the new one) leaves, also when a bulk load() had over-filled the cache
+                flags['overflow'] += 1
+                if len(pre) > ms:
+                    flags['rr_overflow_while_overfull'] = flags.get('rr_overflow_while_overfull', 0) + 1
+                if len(removed) != 1:
+                    out.append(Discrepancy('C06/rr/not-exactly-one', 'step %d: %d resident, maxsize %d: removed %r' % (i, len(pre), ms, removed)))
+                    return out, events, flags
+                events.append('o?')
+                run_no_evict = 0
             else:
                 flags['overflow'] += 1
                 # the cache started within its bound and never bulk-loads here, so len(pre) == ms
@@ -155,7 +179,7 @@ def run_case(case):
     return discrs, nt, sorted(set(classes))
 
 
-REQUIRED_CLASSES = ['victim_not_fifo', 'lru_overflow_after_compaction', 'lfu_multi', 'algo:rr', 'algo:mru', 'algo:lfu', 'algo:lru']
+REQUIRED_CLASSES = ['victim_not_fifo', 'lru_overflow_after_compaction', 'lfu_multi', 'algo:rr', 'algo:mru', 'algo:lfu', 'algo:lru', 'raising_call', 'rr_overflow_while_overfull']
 TRIGGERS = {}
 
 
